@@ -201,11 +201,13 @@ impl<C: Cache<State = St> + Default> Cache for RecCache<C> {
         emit(json!({"ev":"cinit"}));
     }
     fn get_threshold(&self, s: &St, d: usize) -> Option<Threshold> {
+        crate::sched::cache_gate("cget");
         let r = self.inner.get_threshold(s, d);
         emit(json!({"ev":"cget","st":cur_model().sjson(s),"depth":d,"ret":thjson(r)}));
         r
     }
     fn update_threshold(&self, s: Arc<St>, d: usize, v: isize, e: bool) {
+        crate::sched::cache_gate("cupd");
         let e = if CACHE_FAULT.load(SeqCst) { true } else { e };
         emit(json!({"ev":"cupd","st":cur_model().sjson(&s),"depth":d,"value":num(v),"explored":e}));
         self.inner.update_threshold(s, d, v, e)
